@@ -32,6 +32,15 @@ def run(chk):
     for impl in ('mapped', 'recursive'):
         chk.guard('clean-up', impl, lambda impl=impl: helper(chk, impl))
         chk.guard('clean-up', impl + ' entry points', lambda impl=impl: entry_points(chk, impl))
+    # the third mapper: OffsetPageTable's clean-up entry points hand their arguments, unchanged, to MappedPageTable's
+    def offset_delegation():
+        from .c01 import OFFSET, forward
+        lab = MapperLab(chk)
+        for meth in ('clean_up', 'clean_up_addr_range'):
+            outer = "<%s<'_> as %sCleanUp>::%s" % (OFFSET, MP, meth)
+            target = "<%s<'_, P> as %sCleanUp>::%s" % (MAPPED, MP, meth)
+            forward(chk, lab, outer, target, None, None, cleanup=meth)
+    chk.guard('delegation', 'OffsetPageTable clean-up', offset_delegation)
     # the iterator the helper loops over (modelled above as yielding (i, slot i)) really is that: iter()/iter_mut() map 0..512 to
     # the table's own slots, and is_empty / the `all` predicate mean all-zero
     from .c08 import iter_rules
@@ -108,12 +117,26 @@ def helper(chk, impl):
         for o in rets:
             ev = [e for e in o.st.events if e[0] in ('call', 'icall')]
             names = [e[1].split('::')[-1] for e in ev]
-            if isinstance(o.val, BV) and o.val.is_const() and o.val.value() == 0 and 'all' not in names:
-                continue        # empty range
+            if isinstance(o.val, BV) and o.val.is_const() and o.val.value() == 0 and 'all' not in names and not any(n == 'next' or n == 'iter_mut' for n in names):
+                continue        # empty range: decided before the table is looked at
             alls = [e for e in ev if e[1].endswith('Iterator::all')]
             its = [e for e in ev if e[0] == 'icall' and e[1].endswith('PageTable::iter')]
             okr = okr and len(alls) == 1 and len(its) >= 1 and its[-1][2][0].loc == ('obj', 'T') and ev.index(alls[0]) > max([ev.index(x) for x in ev if x[1].endswith('::next')] + [-1])
             okr = okr and isinstance(o.val, BV) and any(isinstance(b, tuple) and b[0] == 'v' and b[1].startswith('all#') for b in o.val.bits)
+            # the emptiness test ranges over the whole table: `all` is applied to iter() itself, not to a window of it
+            if okr:
+                full = o.st.events
+                irets = [i for i, e in enumerate(full) if e[0] == 'iret' and e[3] == its[-1][5]]
+                okr = bool(irets) and not [e for e in full[irets[0] + 1:full.index(alls[0])] if e[0] in ('call', 'icall')]
+                # and its receiver is what iter() returned
+                recv = alls[0][2][0]
+                if isinstance(recv, Ref):
+                    # the value behind `&mut iterator` as it was when `all` was called (the call's snapshot of its reference arguments)
+                    snap = alls[0][6] if len(alls[0]) > 6 else None
+                    recv = snap[0] if snap else None
+                okr = okr and recv is not None and (recv is full[irets[0]][2] or repr(recv) == repr(full[irets[0]][2]))
+            # the verdict is only reached when the loop has run out of slots, never from inside an iteration
+            okr = okr and not [e for e in o.st.events if e[0] == 'yield']
             # "empty" means every slot is all-zero (a non-present entry that still holds bits keeps the table alive)
             okr = okr and len(alls) == 1 and len(alls[0][2]) == 2 and entry_pred_is_all_zero(lab.I, alls[0][2][1])
         chk.ob('clean-up', '%s: returns false for an empty range, otherwise whether its own table is empty after the loop' % tag, okr, 'paths %r' % ([(o.kind, o.val) for o in outs][:6],), site)
